@@ -46,7 +46,7 @@ def rules(t):
     S = t.F.consts["renet::packet::SLICE_SIZE"]["val"]
     for name, idxname in (("SendChannelReliable::get_packets_to_send", None), ("SendChannelUnreliable::get_packets_to_send", None)):
         f = t.fn(name)
-        for c in t.calls(r"Bytes::slice", f):
+        for c in t.calls(r"Bytes::slice$", f):      # (`slice_ref` over `chunks(SLICE_SIZE)` gets its geometry from the standard library: nothing to compare)
             r.site(c)
             rg = strip(t.arg(c, 1))
             if not (isinstance(rg, tuple) and rg[0] == "aggr" and rg[1].endswith("Range")): r.bad(f"{name}|range", c, "slice() not called with start..end"); continue
